@@ -859,9 +859,10 @@ int op_post(struct rthr *th, int id, int limited)
 		return 0;	/* only pinned objects may be posted to from other threads */
 	if ((teardown_started || o->closing) && !mine)
 		return 0;
-	if (!mine && po->kind == K_EVENT && po->p[0] == 2 && o->xi[1] >= 1)
-		return 0;	/* a one-shot event gets one post from outside: whoever posts it knows that the owner
-				 * may free it as soon as the handler has run, and does not touch it again */
+	if (po->kind == K_EVENT && po->p[0] == 2 && o->xi[1] >= 1)
+		return 0;	/* a one-shot event gets exactly one post in its life (from its owner or from outside):
+				 * only then does a running handler prove that the post has been queued, and only
+				 * then is freeing the event from the handler the application's right */
 	if (limited && o->posts >= 4 * CB_LIMIT)
 		return 0;
 	if (o->post_begin_seq > o->last_entry_seq)
@@ -875,10 +876,10 @@ int op_post(struct rthr *th, int id, int limited)
 		hb_acquire(o);
 	if (po->kind == K_EVENT) {
 		int self = simk_self();
+		o->xi[1]++;
 		if (!mine) {
 			posting_obj[self] = id + 1;
 			post_unlocked[self] = 0;
-			o->xi[1]++;
 		}
 		iv_event_post(o->mem);
 		if (!mine) {
